@@ -23,7 +23,10 @@ only arise in the enumerated stratum 'e'.  A third (`unread-default-assign/...`)
 marks an assignment to a trait whose observable constant default was never
 read, when the default object is the assigned value itself or is reached along
 another path; it is drawn only in the enumerated stratum 'm' (the random
-generators reject it).  Every other disagreement is keyed
+generators reject it).  A fourth (`del-default-rehooked-twice/...`) marks
+`del obj.name` / `reset_traits` of a trait that holds a value, whose default is
+itself a node or container and below which something is observed; it is drawn
+only in the strata 'x' (enumerated) and 'y' (random).  Every other disagreement is keyed
 `<complaint>/<what was observed>/after:<class of the last structural op>`.
 
 Histories are concrete, replayable operation lists (indices into the pool,
@@ -32,7 +35,9 @@ drop operations while the same key still fires.
 """
 import copy
 import functools
+import gc
 import operator
+import weakref
 
 from traits.api import (Any, HasTraits, Int, Instance, List, Dict, Set, Str,
                         Undefined, Uninitialized)
@@ -71,7 +76,19 @@ META = {
              "fresh inner container holding a fresh node; flat containers get the operator routes "
              "(|=, &=, -=, ^=, +=, *=) on the object and through the attribute in every stratum, 'l' "
              "enumerated list-of-expressions registrations whose members are then observed on their own "
-             "by other handlers (also drawn at random).  "
+             "by other handlers (also drawn at random), 'v' enumerated metadata VALUES (every history "
+             "declares the tag/link metadata of class-level and later added traits with a value drawn from "
+             "True / other truthy / False / 0 / '' / () / 0.0 / None - a metadata filter matches iff the "
+             "value is not None; the values are also drawn at random in every random stratum), 'w' "
+             "enumerated and 'o' random histories in which the observed root is dropped WITHOUT "
+             "unregistering, collected, and a new root created right away (it usually gets the address of "
+             "the dead one) takes over the long-lived shared sub-objects before or after observing the same "
+             "expressions with the same still-alive handlers (plain functions and bound methods of a third "
+             "object), 'x' enumerated and 'y' random histories with `del obj.name` / reset_traits([...]) of "
+             "observed links, containers, nested containers and leaves (holding an assigned value, a "
+             "materialised default or nothing; defaults that are None, constants, fresh nodes, a shared "
+             "node, fresh containers) - the del/reset ops that do not re-materialise an observed object "
+             "default are drawn in every random stratum.  "
              "distinct_nontrivial "
              "counts distinct (stratum, step kind, method, expression shape, text/object form, all-equal "
              "flag, expected, observed) signatures of steps in which the model expected an event, an "
@@ -101,7 +118,16 @@ META = {
                   "histories_snapshot": 44, "histories_nested": 130, "histories_routes": 120,
                   "nested_outer_ops": 600, "nested_inner_ops": 220, "attribute_route_ops": 450,
                   "nested_fresh_hooked": 1000, "nested_outer_probes": 6000,
-                  "histories_list_form": 40, "list_form_multi": 70},
+                  "histories_list_form": 40, "list_form_multi": 70,
+                  "histories_meta_values": 90, "falsy_meta_probes_matched": 2000,
+                  "falsy_meta_added_matched": 300, "falsy_meta_link_events": 80,
+                  "undefined_meta_silent": 2500,
+                  "histories_reroot": 120, "histories_reroot_directed": 60, "reroot_ops": 400,
+                  "reroot_same_address": 300, "reroot_shared_matched": 1000,
+                  "reroot_bound_handler": 150, "reroot_populated_after": 100,
+                  "histories_del": 100, "histories_del_directed": 70, "del_ops": 900, "reset_ops": 350,
+                  "del_valued": 1200, "del_noop": 300, "del_events_matched": 300,
+                  "del_default_rematerialised_observed": 120, "histories_del_rehook_pattern": 80},
         "thorough": {"evaluations": 6000000, "probe_matched": 200000, "probe_silent": 4000000,
                      "detached_silent": 80000, "container_events_matched": 240000,
                      "link_events_matched": 10000, "quiet_link_silent": 60000,
@@ -121,7 +147,17 @@ META = {
                      "snapshot_default_reads": 4500, "histories_redefine": 50, "histories_snapshot": 44,
                      "histories_nested": 4000, "histories_routes": 120, "nested_outer_ops": 9000,
                      "nested_inner_ops": 2500, "attribute_route_ops": 12000, "nested_fresh_hooked": 20000,
-                     "nested_outer_probes": 150000, "histories_list_form": 40, "list_form_multi": 900},
+                     "nested_outer_probes": 150000, "histories_list_form": 40, "list_form_multi": 900,
+                     "histories_meta_values": 180, "falsy_meta_probes_matched": 35000,
+                     "falsy_meta_added_matched": 2400, "falsy_meta_link_events": 900,
+                     "undefined_meta_silent": 40000,
+                     "histories_reroot": 4000, "histories_reroot_directed": 120, "reroot_ops": 8000,
+                     "reroot_same_address": 6000, "reroot_shared_matched": 25000,
+                     "reroot_bound_handler": 3000, "reroot_populated_after": 2500,
+                     "histories_del": 3000, "histories_del_directed": 140, "del_ops": 30000,
+                     "reset_ops": 12000, "del_valued": 40000, "del_noop": 10000,
+                     "del_events_matched": 7000, "del_default_rematerialised_observed": 3000,
+                     "histories_del_rehook_pattern": 1500},
     },
     "assumptions": [
         "the reachability model (denotation of the mini-language over __dict__ values and the "
@@ -132,6 +168,11 @@ META = {
         "it must be silent and un-match the name; what was hooked only through the removed trait is "
         "never again required to be silent, and failures while a required name is missing end the "
         "history without a verdict; a later add_trait of the name must be tracked again",
+        "`del obj.name` compares by identity: when the default that comes back is equal to (but not "
+        "identical with) the old value, one event or none is accepted; the hooks are judged by the probes",
+        "a dropped root that does not die (something outside the graph holds it) ends the history "
+        "without a verdict; address reuse by the replacement root is CPython allocator behaviour, "
+        "helped by up to 6 allocation attempts and gated (reroot_same_address)",
     ],
     "case_timeout": 300,
 }
@@ -213,19 +254,25 @@ ADDABLE = {"x0": ("int", ("tag",)), "y0": ("int", ()), "items": ("link", ("link"
            # before observe(), so that ordinary non-optional expressions can name them
            "xint": ("int", ()), "xlink": ("link", ()), "xlist": ("list", ())}
 DYN_NAMES = ("xint", "xlink", "xlist")
+# metadata VALUES: a metadata filter matches a trait that DEFINES the metadata (value is not
+# None), whatever the value; every history draws the value of each slot below from this table
+# (spec["mvals"] = {slot: index}; absent = True).  Indices 3..7 are defined-but-falsy, 8 undefined.
+META_VALUES = (True, 1, "x", False, 0, "", (), 0.0, None)
+META_SLOTS = {"m1": "tag", "child": "link", "other": "link", "x0": "tag", "items": "link"}
 KEYS = ("x", "y", "z")
 MISSING = object()
 SKIP = (None, Undefined, Uninitialized, MISSING)
 CONT_CLS = {"list": TraitList, "dict": TraitDict, "set": TraitSet}
 
 
-def make_added_trait(name, kind=None):
+def make_added_trait(name, kind=None, mvals=None):
+    mvals = mvals or {}
     if name == "x0":
-        return Int(tag=True)
+        return Int(tag=mvals.get("x0", True))
     if name == "y0":
         return Int()
     if name == "items":
-        return Instance(Node, link=True)
+        return Instance(Node, link=mvals.get("items", True))
     kind = kind or ADDABLE[name][0]
     return Int() if kind == "int" else Instance(Node) if kind == "link" else List(Instance(Node))
 
@@ -233,22 +280,23 @@ def make_added_trait(name, kind=None):
 REDEFINABLE = ("value", "m1", "child", "other", "children", "cmap", "cset")
 
 
-def make_redefinition(name, kind=None):
+def make_redefinition(name, kind=None, mvals=None):
     """Same-kind definition for add_trait over an already defined name (keeps
-    the metadata the harness schema knows about)."""
+    the metadata the harness schema knows about, values included)."""
+    mvals = mvals or {}
     if name == "value":
         return Int()
     if name == "m1":
-        return Int(tag=True)
+        return Int(tag=mvals.get("m1", True))
     if name in ("child", "other"):
-        return Instance(Node, link=True)
+        return Instance(Node, link=mvals.get(name, True))
     if name == "children":
         return List(Instance(Node))
     if name == "cmap":
         return Dict(Str, Instance(Node))
     if name == "cset":
         return Set(Instance(Node))
-    return make_added_trait(name, kind)
+    return make_added_trait(name, kind, mvals)
 
 
 def _ckind(c):
@@ -632,7 +680,8 @@ class Illegal(Exception):
 
 
 class RegModel:
-    __slots__ = ("notif", "depths", "nested", "error", "nested_keys", "visits", "degraded")
+    __slots__ = ("notif", "depths", "nested", "error", "nested_keys", "visits", "degraded", "falsy",
+                 "inner")
 
     def __init__(self):
         self.notif = set()
@@ -642,6 +691,8 @@ class RegModel:
         self.nested_keys = set()
         self.visits = {}           # key -> number of walk visits (path multiplicity)
         self.degraded = False      # a required trait was taken away by remove_trait
+        self.falsy = set()         # keys matched through (or below) a metadata step whose value is falsy
+        self.inner = set()         # keys visited at a non-last step (something is hooked below them)
 
 
 class Recorder:
@@ -656,7 +707,7 @@ class Recorder:
 
 
 class Reg:
-    __slots__ = ("idx", "root", "spec", "paths", "handler", "owner", "shape")
+    __slots__ = ("idx", "root", "spec", "paths", "handler", "owner", "shape", "has_meta")
 
 
 class NullSink:
@@ -701,9 +752,17 @@ class World:
         # plain assignment, or a redefinition as Any(<instance>)
         self.shared = base(ser=spec["npool"])
         self.cflavour = spec.get("cflavour", "override")
-        self.cls = type(base)("HNode", (base,), {
-            "cdef": self.shared if self.cflavour == "override" else Any(self.shared),
-            "__module__": __name__})
+        # metadata values of this history (class-level slots are re-declared on the history's
+        # class; the shared default node keeps the base class declarations, i.e. True)
+        self.mvals = {s: META_VALUES[i] for s, i in (spec.get("mvals") or {}).items()}
+        body = {"cdef": self.shared if self.cflavour == "override" else Any(self.shared),
+                "__module__": __name__}
+        if "m1" in self.mvals:
+            body["m1"] = Int(tag=self.mvals["m1"])
+        for s in ("child", "other"):
+            if s in self.mvals:
+                body[s] = Instance(Node, link=self.mvals[s])
+        self.cls = type(base)("HNode", (base,), body)
         self.pool = [self.cls(ser=i) for i in range(spec["npool"])] + [self.shared]
         self.removed = {}          # id(node) -> names taken away by remove_trait
         self.tainted = set()       # ids of nodes whose hooks remove_trait left undefined
@@ -718,6 +777,8 @@ class World:
         self.any_dyn_list = False
         self.retired_owner = {}    # id(retired container) -> (id(owner), trait name)
         self.selfdef = False       # sticky signature, see unread_default_assign
+        self.delsig = False        # sticky signature, see del_rehook_pattern
+        self.reroot_shared = set() # leaf keys of long-lived objects observed from a root that is gone
         self.added = {}            # id(node) -> {name: kind}
         self.retired = []          # [(label, kind, container, kind of its items if containers)]
         self.regs = []
@@ -740,7 +801,7 @@ class World:
         """Named dynamic trait of a 'dyn' history: present on every node (pool,
         shared default, probe nodes) from the start, i.e. before observe()."""
         name, kind = self.dyn["name"], self.dyn["kind"]
-        n.add_trait(name, make_added_trait(name, kind))
+        n.add_trait(name, make_added_trait(name, kind, self.mvals))
         self.added.setdefault(id(n), {})[name] = kind
         if kind == "list":
             self.any_dyn_list = True
@@ -785,9 +846,17 @@ class World:
         if kind == "any":
             # a dynamic List trait brings its `<name>_items` event trait along
             return list(CLASS_TRAITS) + list(ad) + [n + "_items" for n, kd in ad.items() if kd == "list"]
-        out = [n for n in CLASS_TRAITS if arg in CLASS_META.get(n, ())]
-        out += [n for n in ad if arg in ADDABLE[n][1]]
+        # a metadata filter matches the traits that DEFINE the metadata: value is not None
+        out = [n for n in CLASS_TRAITS if arg in CLASS_META.get(n, ())
+               and self.meta_value(obj, n) is not None]
+        out += [n for n in ad if arg in ADDABLE[n][1] and self.meta_value(obj, n) is not None]
         return out
+
+    def meta_value(self, obj, name):
+        """Value the harness declared for the (only) metadata of trait `name` of `obj`."""
+        if name in CLASS_TRAITS and type(obj) is not self.cls:
+            return True
+        return self.mvals.get(name, True)
 
     def int_names(self, obj):
         ad = self.added.get(id(obj), {})
@@ -815,7 +884,7 @@ class World:
             self._walk(reg.root, path, 0, (), m)
         return m
 
-    def _walk(self, obj, path, i, chain, m):
+    def _walk(self, obj, path, i, chain, m, fz=False):
         kind, arg, notify, opt = path[i]
         if kind == "trait":
             if self.has(obj, arg):
@@ -852,8 +921,12 @@ class World:
                 m.nested_keys.add(key)
             if notify:
                 m.notif.add(key)
+            fz1 = fz or (kind == "meta" and not self.meta_value(obj, key[2]))
+            if fz1:
+                m.falsy.add(key)
             if last:
                 continue
+            m.inner.add(key)
             if key[0] == "t":
                 v = holder.__dict__.get(key[2], MISSING)
                 if any(v is s for s in SKIP):
@@ -865,7 +938,7 @@ class World:
                 nxt = list(holder)
             sub = chain + (key,)
             for o in nxt:
-                self._walk(o, path, i + 1, sub, m)
+                self._walk(o, path, i + 1, sub, m, fz1)
 
     def refresh(self):
         self.models = [self.compute(r) for r in self.regs]
@@ -1040,10 +1113,18 @@ class World:
                 self.sink.count("probe_matched")
                 if name not in INTS:
                     self.sink.count("added_trait_probes_matched")
+                if key in m0[k].falsy:
+                    self.sink.count("falsy_meta_probes_matched")
+                    if name not in INTS:
+                        self.sink.count("falsy_meta_added_matched")
+                if key in self.reroot_shared:
+                    self.sink.count("reroot_shared_matched")
             else:
                 self.sink.count("probe_silent")
                 if key in self.ever[k]:
                     self.sink.count("detached_silent")
+                if name in META_SLOTS and self.meta_value(obj, name) is None and reg.has_meta:
+                    self.sink.count("undefined_meta_silent")
             if self.was_cyclic and not self.multi:
                 self.sink.count("cyclic_nonmulti_probe_checks")
             nmatched += matched
@@ -1109,6 +1190,8 @@ class World:
                 self.sink.count("link_events_matched")
                 if (id(obj), name) in self.readded:
                     self.sink.count("readd_events_matched")
+                if key in m0[k].falsy:
+                    self.sink.count("falsy_meta_link_events")
             elif key in m0[k].depths and fire and not n0:
                 self.sink.count("quiet_link_silent")
                 self._sig(reg, "assign-" + kind, name, "quiet", 0)
@@ -1138,7 +1221,7 @@ class World:
         what = "%r.add_trait(%r, <%s>)" % (obj, name, kind)
         key = ("t", id(obj), "trait_added")
         again = name in self.removed.get(id(obj), ())
-        exc = self._run(lambda: obj.add_trait(name, make_added_trait(name, kind)))
+        exc = self._run(lambda: obj.add_trait(name, make_added_trait(name, kind, self.mvals)))
         if exc is None:
             self.added.setdefault(id(obj), {})[name] = kind
             if kind == "list":
@@ -1171,7 +1254,7 @@ class World:
         kind = self.added.get(id(obj), {}).get(name)
         what = "%r.add_trait(%r, <same kind>)  [re-definition]" % (obj, name)
         valued = name in obj.__dict__
-        exc = self._run(lambda: obj.add_trait(name, make_redefinition(name, kind)))
+        exc = self._run(lambda: obj.add_trait(name, make_redefinition(name, kind, self.mvals)))
         m0, m1 = self._post(exc, what)
         self.sink.count("redefine_ops")
         key = ("t", id(obj), name)
@@ -1372,6 +1455,7 @@ class World:
         else:
             reg.paths = dedupe_paths(den(ast))
         reg.shape = shape_of(reg.paths)
+        reg.has_meta = any(st[0] == "meta" for p_ in reg.paths for st in p_)
         if rs.get("bound"):
             reg.owner = Recorder(self.log, reg.idx)
             reg.handler = reg.owner.handle
@@ -1382,38 +1466,9 @@ class World:
             def handler(event, log=log, idx=idx):
                 log.append((idx, event))
             reg.handler = handler
-        h = reg.handler
-        text = rs.get("text")
-
-        def thunk():
-            if form == "text":
-                root.observe(h, text)
-            elif form == "parse":
-                root.observe(h, oapi.parse(text))
-            elif form == "list":
-                parts = ast[1] if ast[0] == "par" else [ast]
-                flip = 1 if rs.get("list_first") == "expr" else 0
-                root.observe(h, [render(p) if (i + flip) % 2 == 0 else build(p)
-                                 for i, p in enumerate(parts)])
-                if len(parts) > 1:
-                    self.sink.count("list_form_multi")
-            elif form == "graphs":
-                oapi.apply_observers(root, graphs=oapi.compile_str(text), handler=h,
-                                     dispatcher=oapi.dispatch_same)
-            elif form == "expr":
-                root.observe(h, build(ast))
-            elif form == "paths":
-                root.observe(h, build_paths(reg.paths))
-            elif form == "func":
-                oapi.observe(root, build(ast), h)
-            elif form == "cgraphs":
-                oapi.apply_observers(root, graphs=oapi.compile_expr(build(ast)), handler=h,
-                                     dispatcher=oapi.dispatch_same)
-            else:
-                raise AssertionError(form)
         pre = self.compute(reg)
         what = "%r.observe(h%d, %s) [%s]" % (root, reg.idx, rs["show"], form)
-        exc = self._run(thunk)
+        exc = self._run(lambda: self._observe(reg))
         if pre.error:
             # the expression demands a trait/container this graph does not
             # offer (documented ValueError); failure atomicity is C09's
@@ -1430,6 +1485,282 @@ class World:
         self.sink.count("registrations")
         self.sink.count("text_form_registrations" if form in TEXT_FORMS else "object_form_registrations")
         self.sink.count("form_" + form)
+
+    def _observe(self, reg):
+        """The observe() call of a registration, on its current root."""
+        rs, root, h = reg.spec, reg.root, reg.handler
+        ast, form, text = rs["ast"], rs["form"], rs.get("text")
+        if form == "text":
+            root.observe(h, text)
+        elif form == "parse":
+            root.observe(h, oapi.parse(text))
+        elif form == "list":
+            parts = ast[1] if ast[0] == "par" else [ast]
+            flip = 1 if rs.get("list_first") == "expr" else 0
+            root.observe(h, [render(p) if (i + flip) % 2 == 0 else build(p)
+                             for i, p in enumerate(parts)])
+            if len(parts) > 1:
+                self.sink.count("list_form_multi")
+        elif form == "graphs":
+            oapi.apply_observers(root, graphs=oapi.compile_str(text), handler=h,
+                                 dispatcher=oapi.dispatch_same)
+        elif form == "expr":
+            root.observe(h, build(ast))
+        elif form == "paths":
+            root.observe(h, build_paths(reg.paths))
+        elif form == "func":
+            oapi.observe(root, build(ast), h)
+        elif form == "cgraphs":
+            oapi.apply_observers(root, graphs=oapi.compile_expr(build(ast)), handler=h,
+                                 dispatcher=oapi.dispatch_same)
+        else:
+            raise AssertionError(form)
+
+    # -- primitive: del obj.name / obj.reset_traits([names]) -----------------------------------
+    def object_default(self, obj, name):
+        """Is the default of trait `name` an object of the graph (node or container)?"""
+        if name == "lazy":
+            return True
+        if name == "cdef":
+            return type(obj) is self.cls
+        return self.cont_kind(obj, name) is not None
+
+    def del_rehook_pattern(self, op):
+        """Structural signature `del-default-rehooked-twice`: `del obj.name` /
+        `reset_traits` of a trait that holds a value, whose default is itself an object
+        of the graph (node or container) and below which a registration observes
+        something.  (The delete branch of setattr re-materialises the default through
+        getattr, which notifies Uninitialized -> default, and then notifies old ->
+        default: the maintainers hook the new default twice.)"""
+        if op[0] not in ("del", "reset"):
+            return False
+        a = self.node(op[1])
+        if a is None:
+            return False
+        for nm in ([op[2]] if op[0] == "del" else op[2]):
+            if nm in a.__dict__ and self.has(a, nm) and self.object_default(a, nm) \
+                    and any(("t", id(a), nm) in m.inner for m in self.models):
+                return True
+        return False
+
+    def static_default(self, obj, name):
+        """Default of a trait whose default is a constant that is not an object of the graph."""
+        return 0 if name in self.int_names(obj) else None
+
+    def do_del(self, obj, names, how):
+        """`del obj.name` / `obj.reset_traits(names)`: every named trait that holds a value
+        goes back to its default - a mutation of the link like an assignment of the
+        default (a fresh default object for lazy / container traits).  Judged per name."""
+        d = obj.__dict__
+        olds = {nm: d[nm] for nm in names if nm in d}
+        box = []
+        if how == "del":
+            what = "del %r.%s" % (obj, names[0])
+            exc = self._run(lambda: delattr(obj, names[0]))
+        else:
+            what = "%r.reset_traits(%r)" % (obj, list(names))
+            exc = self._run(lambda: box.append(obj.reset_traits(list(names))))
+        for nm, old in olds.items():
+            ck = self.cont_kind(obj, nm)
+            if ck and _ckind(old) and d.get(nm) is not old:
+                self.retired.append(("old %r.%s#%d" % (obj, nm, self.nstep), ck, old,
+                                     NESTED[nm][1] if nm in NESTED else None))
+                self.retired_owner[id(old)] = (id(obj), nm)
+        del self.retired[:-6]
+        m0, m1 = self._post(exc, what)
+        self.sink.count("del_ops" if how == "del" else "reset_ops")
+        if box and box[0]:
+            raise Complaint("reset-refused", "%s returned %r" % (what, box[0]), {"step": what})
+        for nm in names:
+            if nm in olds:
+                self.sink.count("del_valued")
+                cur = d.get(nm, MISSING)
+                if self.object_default(obj, nm) and cur is not MISSING and cur is not olds[nm]:
+                    self.sink.count("del_default_rematerialised")
+                    if any(("t", id(obj), nm) in m.inner for m in m0):
+                        self.sink.count("del_default_rematerialised_observed")
+            else:
+                self.sink.count("del_noop")
+        for k, reg in enumerate(self.regs):
+            byname = {}
+            for e in self._events(k):
+                if type(e) is oapi.TraitChangeEvent and e.object is obj and e.name in names:
+                    byname.setdefault(e.name, []).append(e)
+                elif type(e) is oapi.TraitChangeEvent and e.name in names:
+                    raise Complaint("wrong-event-object",
+                                    "%s: handler %d got an event for %r on %r, the changed object is %r"
+                                    % (what, k, e.name, e.object, obj), {"step": what, "reg": k})
+                else:
+                    raise Complaint("spurious-event", "%s: handler %d got unrelated event %r"
+                                    % (what, k, e), {"step": what, "reg": k})
+            for nm in names:
+                key = ("t", id(obj), nm)
+                n0, n1 = key in m0[k].notif, key in m1[k].notif
+                self.sink.ev()
+                cur = d.get(nm, MISSING)
+                new = cur
+                if cur is MISSING and not self.object_default(obj, nm):
+                    new = self.static_default(obj, nm)
+                if nm not in olds or olds[nm] is new:
+                    allowed = {0}                     # nothing to reset / already the default
+                elif n0 and n1:
+                    # the delete branch compares by identity; an equal default may be "no change"
+                    allowed = {0, 1} if (new is not MISSING and _safe_eq(olds[nm], new)) else {1}
+                elif n0 or n1:
+                    allowed = {0, 1}
+                else:
+                    allowed = {0}
+                evs = byname.get(nm, [])
+                n = len(evs)
+                if n not in allowed:
+                    c = "missing-hook" if n == 0 else "stale-hook" if max(allowed) == 0 else "double-delivery"
+                    raise Complaint(c, "%s: handler %d (%s on %r) received %d TraitChangeEvent(s) for %r.%s, "
+                                    "model expects %s" % (what, k, reg.spec["show"], reg.root, n, obj, nm,
+                                                          sorted(allowed)),
+                                    {"step": what, "reg": k, "got": n, "expected": sorted(allowed)}, "link")
+                if n == 1:
+                    e = evs[0]
+                    if e.old is not olds[nm]:
+                        raise Complaint("wrong-event-old", "%s: handler %d event.old=%r is not the previous "
+                                        "value" % (what, k, e.old), {"step": what, "reg": k})
+                    if new is not MISSING and not (e.new is new or (cur is MISSING and type(e.new) is type(new)
+                                                                    and e.new == new)):
+                        raise Complaint("wrong-event-new", "%s: handler %d event.new=%r is not the default "
+                                        "now in place (%r)" % (what, k, e.new, new), {"step": what, "reg": k})
+                    self.sink.count("del_events_matched")
+                if n or max(allowed):
+                    self._sig(reg, how, "obj" if self.object_default(obj, nm) else "const", max(allowed), n)
+                elif nm in olds and key in m0[k].depths and not n0:
+                    self.sink.count("quiet_link_silent")
+                    self._sig(reg, how, nm, "quiet", 0)
+
+    # -- primitive: the observed root is dropped (no unregistration) and replaced ----------------
+    def _plain(self, v):
+        if isinstance(v, dict):
+            return {kk: self._plain(x) for kk, x in v.items()}
+        if isinstance(v, set):
+            return set(v)
+        if isinstance(v, list):
+            return [self._plain(x) for x in v]
+        return v
+
+    def root_referenced(self, idx):
+        """Does anything of the graph (or a container the harness keeps) hold pool[idx]?"""
+        old = self.pool[idx]
+        for n in self.pool + self.temp:
+            if n is not None and any(v is old for v in self.edges(n)):
+                return True
+        for c in [x[2] for x in self.retired] + list(self.tainted_conts):
+            if any(v is old for v in _flat_nodes(c)):
+                return True
+        return False
+
+    def do_reroot(self, idx, mode):
+        """The root of one or more registrations is dropped WITHOUT unregistering and
+        collected; a fresh root is created right away (CPython hands the address of the
+        dead one back), takes over the dead root's links and containers - the sub-objects
+        are long-lived and shared - and observes the same expressions with the same, still
+        alive handlers.  mode 'before': populated, then observed; 'after': observed, then
+        populated through ordinary (judged) assignments.  The probes that follow judge the
+        new root by the same reachability oracle."""
+        if self.pool[idx] is self.shared or id(self.pool[idx]) in self.tainted:
+            return
+        here = [r for r in self.regs if r.root is self.pool[idx]]
+        if not here:
+            return
+        if self.root_referenced(idx):
+            self.sink.count("reroot_skipped_referenced")
+            return
+        what = "n%d dropped (not unregistered), collected; new n%d takes over its values %s observe()" \
+            % (idx, idx, "before" if mode == "before" else "after")
+        # what the dead root held; leaf keys of the long-lived objects it observed
+        state = []
+        for nm, v in list(self.pool[idx].__dict__.items()):
+            if isinstance(v, Node) or _ckind(v):
+                state.append((nm, self._plain(v)))
+        oid = id(self.pool[idx])
+        added = dict(self.added.get(oid, {}))
+        for r in here:
+            self.reroot_shared.update(x for x in self.models[r.idx].notif if x[0] == "t" and x[1] != oid)
+        wr = weakref.ref(self.pool[idx])
+        # -- drop: the harness lets go of every reference it holds
+        for r in here:
+            r.root = None
+        self.pool[idx] = None
+        del self.log[:]
+        self.last_redef = self.last_rep = None
+        for tab in (self.added, self.removed):
+            tab.pop(oid, None)
+        self.tainted.discard(oid)
+        self.through_readd.discard(oid)
+        self.readded = {x for x in self.readded if x[0] != oid}
+        self.reroot_shared = {x for x in self.reroot_shared if x[1] != oid}
+        self.pending_readd = [x for x in self.pending_readd if x[0] != idx]
+        for ev_ in self.ever:
+            for x in [x for x in ev_ if x[1] == oid]:
+                ev_.discard(x)
+        if wr() is not None:
+            gc.collect()
+        if wr() is not None:
+            # something outside the graph keeps it alive: its observers stay live, the
+            # history can no longer be judged
+            self.sink.count("reroot_alive")
+            raise Illegal()
+        self.sink.count("reroot_collected")
+        # -- the fresh root, preferably at the address of the dead one
+        spare, new = [], None
+        for _ in range(6):
+            new = self.cls(ser=idx)
+            if id(new) == oid:
+                break
+            spare.append(new)
+        if id(new) == oid:
+            self.sink.count("reroot_same_address")
+        del spare
+        self.pool[idx] = new
+        for r in here:
+            r.root = new
+        if self.dyn:
+            self._give_dyn(new)
+        for nm, kd in added.items():
+            if nm not in self.added.get(id(new), ()):
+                new.add_trait(nm, make_added_trait(nm, kd, self.mvals))
+                self.added.setdefault(id(new), {})[nm] = kd
+
+        def populate_silently():
+            for nm, v in state:
+                if nm == "cdef" and v is self.shared:
+                    getattr(new, nm)
+                else:
+                    setattr(new, nm, v)
+
+        def observe_all():
+            for r in here:
+                self._observe(r)
+        if mode == "before":
+            exc = self._run(lambda: (populate_silently(), observe_all()))
+        else:
+            exc = self._run(observe_all)
+        logged = list(self.log)
+        self.models = [self.compute(r) for r in self.regs]
+        self._post(exc, what)
+        if logged:
+            raise Complaint("event-during-registration", "%s delivered %r" % (what, logged[:2]),
+                            {"step": what})
+        self.sink.count("reroot_ops")
+        self.sink.count("reroot_regs", len(here))
+        if any(r.owner is not None for r in here):
+            self.sink.count("reroot_bound_handler")
+        if mode == "after":
+            for nm, v in state:
+                if nm == "cdef":
+                    # read first: assigning over the never-read constant default is the
+                    # unread-default-assign pattern (stratum 'm')
+                    self.do_read(new, nm)
+                    if v is self.shared:
+                        continue
+                self.do_assign(new, nm, v)
+            self.sink.count("reroot_populated_after")
 
     # -- operations -> primitives ------------------------------------------------
     def node(self, i):
@@ -1496,6 +1827,9 @@ class World:
         if (op[0] == "snap" or (op[0] == "read" and op[2] == "cdef")) and "cdef" not in a.__dict__ \
                 and type(a) is self.cls:
             tg.append(self.shared)             # the read will materialise the edge a -> shared
+        if ((op[0] == "del" and op[2] == "cdef") or (op[0] == "reset" and "cdef" in op[2])) \
+                and type(a) is self.cls:
+            tg.append(self.shared)             # the default comes back
         for n in tg:
             if n is None:
                 continue
@@ -1505,6 +1839,12 @@ class World:
 
     def run_op(self, op):
         k = op[0]
+        if k == "reroot":
+            # no local may hold the root while it is being dropped
+            if self.node(op[1]) is not None:
+                self.opclass = OPCLASS[k]
+                self.do_reroot(op[1], op[2])
+            return
         a = self.node(op[1])
         if a is None:
             return
@@ -1599,6 +1939,17 @@ class World:
         elif k == "redefine":
             if self.has(a, op[2]) and (op[2] in REDEFINABLE or op[2] in self.added.get(id(a), ())):
                 self.do_redefine(a, op[2])
+        elif k in ("del", "reset"):
+            names = [nm for nm in ([op[2]] if k == "del" else op[2]) if self.has(a, nm)
+                     and nm not in ("ser", "trait_added", "trait_modified")]
+            names = [nm for q, nm in enumerate(names) if nm not in names[:q]]
+            if "lazy" in names and len(self.pool) >= 10:
+                names.remove("lazy")
+            if not names:
+                return
+            if self.del_rehook_pattern([k, op[1], names[0] if k == "del" else names]):
+                self.delsig = True
+            self.do_del(a, names, k)
         elif k == "snap":
             if "lazy" not in a.__dict__ and len(self.pool) >= 12:
                 return
@@ -1945,7 +2296,8 @@ OPCLASS = {"set": "assign-link", "setcont": "assign-container", "recont": "assig
            "read": "default-read", "add_trait": "add-trait", "remove_trait": "remove-trait",
            "redefine": "redefine-trait", "snap": "snapshot", "setnest": "assign-nested-container",
            "no": "nested-outer-mutation", "na": "nested-outer-mutation", "ni": "nested-inner-mutation",
-           "aug": "augmented-assignment",
+           "aug": "augmented-assignment", "del": "del-trait", "reset": "reset-traits",
+           "reroot": "root-replaced",
            "observe": "registration"}
 
 
@@ -2064,6 +2416,8 @@ def make_key(W, c):
         return "set-equal-twin/" + c.what
     if W.selfdef:
         return "unread-default-assign/" + c.what
+    if W.delsig:
+        return "del-default-rehooked-twice/" + c.what
     if c.kind:
         return "%s/%s/after:%s" % (c.what, c.kind, W.opclass)
     return "%s/after:%s" % (c.what, W.opclass)
@@ -2202,6 +2556,11 @@ def script(spec, actions):
              % (spec["npool"], spec["npool"] - 1,
                 "class body `cdef = n%d` overriding Instance('Node')" % spec["npool"]
                 if spec.get("cflavour", "override") == "override" else "cdef = Any(n%d)" % spec["npool"])]
+    if spec.get("mvals"):
+        lines.append("metadata values of n0..n%d (class level: m1 tag, child/other link) and of traits added "
+                     "later (x0 tag, items link): %s; the shared node has True"
+                     % (spec["npool"] - 1, ", ".join("%s=%r" % (s_, META_VALUES[i])
+                                                     for s_, i in sorted(spec["mvals"].items()))))
     if spec.get("dyn"):
         lines.append("for n in n0..n%d (and every probe node): n.add_trait(%r, %s)   # before observe()"
                      % (spec["npool"], spec["dyn"]["name"],
@@ -2255,6 +2614,18 @@ def script(spec, actions):
             lines.append("n%d.%s %s= %r   # augmented assignment through the attribute, ints are pool indices"
                          % (act[1], act[2], {"ior": "|", "iadd": "+", "imul": "*", "ixor": "^", "isub": "-",
                                              "iand": "&"}[act[3]], act[4]))
+        elif k == "del":
+            lines.append("del n%d.%s" % (act[1], act[2]))
+        elif k == "reset":
+            lines.append("n%d.reset_traits(%r)" % (act[1], act[2]))
+        elif k == "reroot":
+            lines.append("state = links and containers of n%d; del n%d (every reference; NOT unregistered); "
+                         "n%d = Node(); %s   # same handlers, same expressions; the new root usually gets "
+                         "the address of the dead one"
+                         % (act[1], act[1], act[1],
+                            "n%d takes the state; n%d.observe(...) again" % (act[1], act[1])
+                            if act[2] == "before" else
+                            "n%d.observe(...) again; n%d takes the state" % (act[1], act[1])))
         elif k == "snap":
             lines.append({"copy": "copy.copy(n%d)", "getstate": "n%d.__getstate__()",
                           "trait_get": "n%d.trait_get()"}[act[2]] % act[1] + "   # result discarded")
@@ -2319,7 +2690,7 @@ def _wchoice(rng, table):
 
 
 OP_TABLE = [("set", 16), ("setcont", 8), ("recont", 5), ("l", 24), ("d", 12), ("s", 10),
-            ("read", 6), ("add_trait", 4), ("redefine", 4), ("snap", 4), ("aug", 4)]
+            ("read", 6), ("add_trait", 4), ("redefine", 4), ("snap", 4), ("aug", 4), ("del", 5)]
 L_METHODS = [("append", 5), ("extend", 4), ("iadd", 1), ("insert", 3), ("setitem", 5), ("setslice", 3),
              ("extslice", 1), ("delitem", 3), ("delslice", 2), ("pop", 2), ("remove", 3), ("reverse", 1),
              ("sort", 1), ("clear", 1), ("imul", 1), ("reslice", 5), ("extfirst", 1)]
@@ -2330,7 +2701,37 @@ S_METHODS = [("add", 6), ("discard", 3), ("remove", 2), ("pop", 1), ("clear", 1)
              ("op_iand", 1)]
 
 
-def gen_op(rng, W, names, cyclic):
+def gen_del_op(rng, W, names, a, focus=False):
+    """`del` of one trait or reset_traits of a few: links, containers, nested containers,
+    Int leaves and dynamic traits, holding a value or not.  focus: prefer a trait that
+    holds a value and below which a registration observes something."""
+    node = W.pool[a]
+    pool = list(LINKS) + list(CONTS) + list(INTS) + list(W.added.get(id(node), ()))
+    if rng.random() < 0.15:
+        pool += list(NESTED)
+    if focus:
+        hot = [(i, key[2]) for i, p_ in enumerate(W.pool) for m in W.models for key in m.inner
+               if key[0] == "t" and key[1] == id(p_) and key[2] in p_.__dict__ and id(p_) not in W.tainted]
+        if hot and rng.random() < 0.8:
+            a, nm = rng.choice(sorted(set(hot)))
+            return ["del", a, nm] if rng.random() < 0.7 else \
+                ["reset", a, [nm] + ([rng.choice(pool)] if rng.random() < 0.5 else [])]
+    valued = [nm for nm in pool if nm in node.__dict__]
+    pref = [nm for nm in valued if nm in names]
+
+    def pick():
+        r = rng.random()
+        if pref and r < 0.5:
+            return rng.choice(pref)
+        if valued and r < 0.85:
+            return rng.choice(valued)
+        return rng.choice(pool)
+    if rng.random() < 0.25:
+        return ["reset", a, [pick() for _ in range(rng.randint(1, 3))]]
+    return ["del", a, pick()]
+
+
+def gen_op(rng, W, names, cyclic, delpat=False):
     """One concrete operation against the current world."""
     n = len(W.pool)
     visited = set()
@@ -2415,6 +2816,8 @@ def gen_op(rng, W, names, cyclic):
                      if any(nm not in W.pool[i].__dict__ for nm in ("lazy", "children", "cmap", "cset", "cdef"))]
             op = ["snap", rng.choice(fresh) if fresh and rng.random() < 0.8 else a,
                   rng.choice(["copy", "getstate", "trait_get"])]
+        elif k == "del":
+            op = gen_del_op(rng, W, names, a, delpat)
         elif k == "remove_trait":
             good = [x for x in removable if x[0] in vis_idx and x[1] in names]
             i, nm = rng.choice(good) if good and rng.random() < 0.75 else rng.choice(removable)
@@ -2443,7 +2846,7 @@ def gen_op(rng, W, names, cyclic):
             if add_pref and rng.random() < 0.75:
                 op = ["add_trait", a, rng.choice(add_pref)]
             else:
-                op = ["add_trait", a, rng.choice(["x0", "x0", "y0", "items"])]
+                op = ["add_trait", a, rng.choice(["x0", "x0", "y0", "items", "items"])]
         elif k == "l":
             tr = "children"
             if W.cont_kind(node, "xlist") and rng.random() < (0.6 if "xlist" in names else 0.1):
@@ -2499,6 +2902,8 @@ def gen_op(rng, W, names, cyclic):
             continue
         if W.unread_default_assign(op):
             continue                   # drawn in stratum 'm' only (open finding)
+        if not delpat and W.del_rehook_pattern(op):
+            continue                   # drawn in strata 'x' / 'y' only (open finding)
         if W.touches_tainted(op):
             continue                   # nodes whose hooks a remove_trait left undefined
         return op
@@ -2527,7 +2932,7 @@ def names_in(ast, acc=None):
     return acc
 
 
-def make_reg(rng, ast, root, cyc=False):
+def make_reg(rng, ast, root, cyc=False, pbound=0.3):
     obj_only = has_object_only(ast)
     if obj_only:
         form = rng.choice(OBJECT_FORMS)
@@ -2545,7 +2950,7 @@ def make_reg(rng, ast, root, cyc=False):
     if form == "paths" and len(dedupe_paths(den(ast))) > MAX_FLAT_PATHS:
         form = "expr"              # every `items` multiplies the flattened spelling by four
     return {"root": root, "ast": ast, "text": text, "form": form, "show": show,
-            "bound": rng.random() < 0.3, "list_first": rng.choice(["text", "expr"])}
+            "bound": rng.random() < pbound, "list_first": rng.choice(["text", "expr"])}
 
 
 def pick_ast(rng, ctx, cyc):
@@ -2810,7 +3215,13 @@ def random_history(ctx, rng, stratum):
             ast = gen_nested_expr(rng)
         else:
             ast = pick_ast(rng, ctx, cyc)
-        regs.append(make_reg(rng, ast, root, cyc))
+            if stratum == "o":
+                # something long-lived must lie below the root
+                for _ in range(6):
+                    if max(len(p_) for p_ in den(ast)) >= 2:
+                        break
+                    ast = pick_ast(rng, ctx, cyc)
+        regs.append(make_reg(rng, ast, root, cyc, 0.5 if stratum == "o" else 0.3))
     if regs[0]["form"] == "list" and regs[0]["ast"][0] == "par" and rng.random() < 0.7:
         # the members of a list-form registration are also observed on their own (other
         # handler): each registration must follow its own expression only
@@ -2825,6 +3236,10 @@ def random_history(ctx, rng, stratum):
             "cflavour": rng.choice(["override", "any"])}
     if dyn:
         spec["dyn"] = dyn
+    if rng.random() < 0.55:
+        # metadata values of this history: True / other truthy / defined-but-falsy / None
+        spec["mvals"] = {s_: rng.choice([0, 1, 2, 3, 3, 4, 4, 5, 6, 7, 8]) for s_ in sorted(META_SLOTS)
+                         if rng.random() < 0.8}
     names = set()
     for rs in regs:
         names_in(rs["ast"], names)
@@ -2847,6 +3262,10 @@ def random_history(ctx, rng, stratum):
     elif rng.random() < (0.7 if names & {"cdef", "lazy"} else 0.3):
         at = rng.randint(0, len(body))
         body[at:at] = seeds(0, False)
+    if stratum == "o":
+        # the observed roots are dropped without unregistering and replaced, 1-3 times
+        for _ in range(rng.choice([1, 2, 2, 3])):
+            body.insert(rng.randint(0, len(body)), ("reroot",))
     plan += body
 
     def gen(W, i):
@@ -2860,6 +3279,11 @@ def random_history(ctx, rng, stratum):
             if (not cyc and W.would_cycle(op)) or W.unread_default_assign(op) or W.touches_tainted(op):
                 return ["read", op[1], "child"]
             return op
+        if item[0] == "reroot":
+            roots = sorted({r.spec["root"] for r in W.regs})
+            if not roots:
+                return ["read", 0, "child"]
+            return ["reroot", rng.choice(roots), rng.choice(["before", "before", "after"])]
         if W.pending_readd:
             # a removed dynamic trait usually comes back (at once when an expression requires
             # it), under the same kind or - if nothing is observed below it - another one
@@ -2921,6 +3345,21 @@ def random_history(ctx, rng, stratum):
                                     rng.choice(idxs)]
         if stratum == "k" and rng.random() < 0.6:
             return gen_nested_op(rng, W, names, cyc)
+        if stratum == "o":
+            # nothing may point at an observed root: it is about to be dropped and collected
+            roots = {r.spec["root"] for r in W.regs} | {0}
+            for _ in range(8):
+                op = gen_op(rng, W, names, cyc)
+                if not (roots & set(W.targets(op))):
+                    return op
+            return ["read", 0, "child"]
+        if stratum == "y":
+            if rng.random() < 0.3:
+                a = rng.randrange(len(W.pool))
+                op = gen_del_op(rng, W, names, a, True)
+                if not W.touches_tainted(op) and (cyc or not W.would_cycle(op)):
+                    return op
+            return gen_op(rng, W, names, cyc, True)
         return gen_op(rng, W, names, cyc)
     return spec, [], gen
 
@@ -3198,6 +3637,135 @@ def multiplicity_cases():
     return out
 
 
+def metadata_value_cases(quick):
+    """Stratum 'v' (enumerated): metadata expressions over traits whose metadata VALUE is
+    every kind of defined value (True, other truthy, False, 0, '', (), 0.0) or None
+    (= undefined, not matched): class-level traits, traits added later, links that are
+    followed through a metadata step."""
+    out = []
+    texts = ["+tag", "child.+tag", "+link.value", "+link:+tag", "children.items.+tag",
+             "+link.+link.value", "+link", "+link:value", "[child,other].+tag"]
+    pre = [["set", 0, "child", 1], ["set", 0, "other", 2], ["setcont", 0, "children", [3]],
+           ["set", 1, "child", 3], ["set", 2, "other", 4]]
+    post = [["add_trait", 0, "x0"], ["add_trait", 1, "x0"], ["add_trait", 3, "x0"],
+            ["add_trait", 0, "items"], ["set", 0, "items", 4], ["add_trait", 4, "x0"],
+            ["set", 0, "other", 4], ["set", 0, "child", None], ["set", 0, "items", None]]
+    variants = [("uniform-%d" % vi, {s_: vi for s_ in META_SLOTS}) for vi in range(2, 9)]
+    variants += [("mixed-a", {"child": 0, "other": 3, "m1": 4, "x0": 5, "items": 7}),
+                 ("mixed-b", {"child": 8, "other": 4, "m1": 8, "x0": 3, "items": 6}),
+                 ("mixed-c", {"child": 5, "other": 8, "m1": 6, "x0": 8, "items": 3})]
+    for ti, text in enumerate(texts):
+        for vj, (vname, mvals) in enumerate(variants):
+            for form in ("text", "expr"):
+                if quick and (ti + vj + (form == "expr")) % 2:
+                    continue
+                out.append((text, vname, mvals, form, pre + [["observe", 0]] + post))
+    return out
+
+
+def reroot_cases(quick):
+    """Stratum 'w' (enumerated): a root observing long-lived shared sub-objects is dropped
+    WITHOUT unregistering and collected; a new root created right away takes over the
+    sub-objects and observes the same expression with the same (still alive) handler -
+    twice in a row; then the links are mutated."""
+    out = []
+    fam = [
+        ("child.value", [["set", 0, "child", 1]], [["set", 0, "child", 2], ["set", 0, "child", None]]),
+        ("child:value", [["set", 0, "child", 1]], [["set", 0, "child", 2]]),
+        ("child.*", [["set", 0, "child", 1]], [["set", 0, "child", 2]]),
+        ("child.+tag", [["set", 0, "child", 1]], [["add_trait", 1, "x0"], ["set", 0, "child", 2]]),
+        ("child.child.value", [["set", 0, "child", 1], ["set", 1, "child", 2]],
+         [["set", 1, "child", 3], ["set", 0, "child", 3]]),
+        ("[child,other].value", [["set", 0, "child", 1], ["set", 0, "other", 1]], [["set", 0, "other", 2]]),
+        ("children.items.value", [["setcont", 0, "children", [1, 2, 1]]],
+         [["l", 0, "children", "delitem", 0], ["l", 0, "children", "append", 3]]),
+        ("cmap.items.value", [["setcont", 0, "cmap", [["x", 1], ["y", 2]]]], [["d", 0, "cmap", "del", "x"]]),
+        ("cset.items.value", [["setcont", 0, "cset", [1, 2]]], [["s", 0, "cset", "discard", 1]]),
+        ("child.children.items.value", [["set", 0, "child", 1], ["setcont", 1, "children", [2, 3]]],
+         [["l", 1, "children", "append", 4], ["l", 1, "children", "delitem", 0]]),
+        ("child.cmap.items.cset.items.value",
+         [["set", 0, "child", 1], ["setcont", 1, "cmap", [["x", 2]]], ["setcont", 2, "cset", [3, 4]]],
+         [["s", 2, "cset", "discard", 3], ["d", 1, "cmap", "set", "y", 4]]),
+        ("lazy.value", [["read", 0, "lazy"]], [["set", 0, "lazy", 2]]),
+        ("cdef.value", [["read", 0, "cdef"]], [["set", 5, "child", 1], ["set", 0, "cdef", 2]]),
+        ("groups.items.items.value", [["setnest", 0, "groups", [["x", [1, 2]]]]],
+         [["ni", 0, "groups", "x", "append", 3]]),
+        ("+link.value", [["set", 0, "child", 1], ["set", 0, "other", 2]], [["set", 0, "other", 3]]),
+    ]
+    for fi, (text, pre, post) in enumerate(fam):
+        for bound in (False, True):
+            for mode in ("before", "after"):
+                for form in ("text", "expr"):
+                    if quick and (fi + bound + (mode == "after") + (form == "expr")) % 2:
+                        continue
+                    acts = pre + [["observe", 0], ["reroot", 0, mode], ["reroot", 0, mode]] + post \
+                        + [["reroot", 0, "before"]]
+                    out.append((text, bound, mode, form, acts))
+    return out
+
+
+def del_cases(quick):
+    """Stratum 'x' (enumerated): `del obj.name` / reset_traits as the mutation of an
+    observed link, container or leaf - holding an assigned value, a materialised
+    default, or nothing - then the trait is used again and the value replaced."""
+    out = []
+    fam = [
+        # (expression, owner, trait, pre, use-after)
+        ("child.value", 0, "child", [["set", 0, "child", 1]], [["set", 0, "child", 2], ["set", 0, "child", None]]),
+        ("child:value", 0, "child", [["set", 0, "child", 1]], [["set", 0, "child", 2]]),
+        ("child.value", 0, "child", [], [["set", 0, "child", 2]]),
+        ("child.child.value", 1, "child", [["set", 0, "child", 1], ["set", 1, "child", 2]],
+         [["set", 1, "child", 3]]),
+        ("[child,other].value", 0, "other", [["set", 0, "child", 1], ["set", 0, "other", 1]],
+         [["set", 0, "other", 2]]),
+        ("lazy.value", 0, "lazy", [["read", 0, "lazy"]], [["set", 0, "lazy", 2], ["set", 0, "lazy", None]]),
+        ("lazy.value", 0, "lazy", [["set", 0, "lazy", 1]], [["set", 0, "lazy", 2]]),
+        ("lazy:value", 0, "lazy", [], [["read", 0, "lazy"], ["set", 0, "lazy", 2]]),
+        ("cdef.value", 0, "cdef", [["read", 0, "cdef"]], [["set", 0, "cdef", 2], ["set", 0, "cdef", None]]),
+        ("cdef.value", 0, "cdef", [["read", 0, "cdef"], ["set", 0, "cdef", 1]], [["set", 0, "cdef", 2]]),
+        ("child.cdef.value", 1, "cdef", [["set", 0, "child", 1], ["read", 1, "cdef"]], [["set", 1, "cdef", 2]]),
+        ("children.items.value", 0, "children", [["setcont", 0, "children", [1, 2]]],
+         [["l", 0, "children", "append", 3], ["setcont", 0, "children", [4]]]),
+        ("children:items:value", 0, "children", [["setcont", 0, "children", [1]]],
+         [["l", 0, "children", "append", 3], ["setcont", 0, "children", [4]]]),
+        ("children.items", 0, "children", [["read", 0, "children"]],
+         [["l", 0, "children", "append", 3], ["setcont", 0, "children", [4]]]),
+        ("children", 0, "children", [["setcont", 0, "children", [1]]], [["setcont", 0, "children", [4]]]),
+        ("child.children.items.value", 1, "children", [["set", 0, "child", 1], ["setcont", 1, "children", [2]]],
+         [["l", 1, "children", "append", 3], ["recont", 1, "children"]]),
+        ("cmap.items.value", 0, "cmap", [["setcont", 0, "cmap", [["x", 1]]]],
+         [["d", 0, "cmap", "set", "y", 2], ["setcont", 0, "cmap", [["x", 3]]]]),
+        ("cset.items.value", 0, "cset", [["setcont", 0, "cset", [1, 2]]],
+         [["s", 0, "cset", "add", 3], ["setcont", 0, "cset", [4]]]),
+        ("groups.items.items.value", 0, "groups", [["setnest", 0, "groups", [["x", [1]]]]],
+         [["no", 0, "groups", "set", "y", [2]], ["setnest", 0, "groups", [["x", [3]]]]]),
+        ("value", 0, "value", [], []),
+        ("child.value", 1, "value", [["set", 0, "child", 1]], []),
+        ("child.+tag", 1, "m1", [["set", 0, "child", 1]], []),
+        ("child.*", 1, "child", [["set", 0, "child", 1], ["set", 1, "child", 2]], [["set", 1, "child", 3]]),
+        ("children.items.*", 1, "m1", [["setcont", 0, "children", [1, 1]]], []),
+    ]
+    for fi, (text, own, tr, pre, use) in enumerate(fam):
+        for hj, how in enumerate(("del", "reset", "reset-many")):
+            for form in ("text", "expr"):
+                if quick and (fi + hj + (form == "expr")) % 2:
+                    continue
+                if how == "del":
+                    op = ["del", own, tr]
+                elif how == "reset":
+                    op = ["reset", own, [tr]]
+                else:
+                    op = ["reset", own, ["value", tr, "other", "cset"]]
+                out.append((text, tr, how, form, pre + [["observe", 0], op] + use + [op, op]))
+    return out
+
+
+def _rs(text, form, bound=False, root=0):
+    ast = parse_text(text)
+    return {"root": root, "ast": ast, "text": text, "form": form, "bound": bound,
+            "show": repr(text) if form in TEXT_FORMS else describe_ast(ast)}
+
+
 def directed_cases():
     """Enumerated cycle-through-root patterns: for every cycle-prone expression
     and every way of closing a cycle through the root at its first step, close
@@ -3461,9 +4029,64 @@ def run(ctx):
                         report(ctx, spec, actions, res, cid)
                 finally:
                     ctx.end()
+    # ---- stratum v: metadata values (enumerated) -----------------------------------
+    for vi, (text, vname, mvals, form, acts) in enumerate(metadata_value_cases(ctx.quick)):
+        if not ctx.mine(vi):
+            continue
+        cid = "v:%d" % vi
+        if not ctx.begin(cid, {"expr": text, "metadata_values": vname, "form": form}):
+            continue
+        try:
+            for alleq in (False, True):
+                spec = {"alleq": alleq, "npool": 5, "regs": [_rs(text, form)], "stratum": "v",
+                        "mvals": dict(mvals)}
+                actions = [list(a) for a in acts]
+                res = execute(spec, actions, ctx)
+                ctx.count("histories_meta_values")
+                if res["key"]:
+                    report(ctx, spec, actions, res, cid)
+        finally:
+            ctx.end()
+    # ---- stratum w: observed root dropped, collected, replaced (enumerated) ----------
+    for wi, (text, bound, mode, form, acts) in enumerate(reroot_cases(ctx.quick)):
+        if not ctx.mine(wi):
+            continue
+        cid = "w:%d" % wi
+        if not ctx.begin(cid, {"expr": text, "bound_handler": bound, "mode": mode, "form": form}):
+            continue
+        try:
+            for alleq in (False, True):
+                spec = {"alleq": alleq, "npool": 5, "regs": [_rs(text, form, bound)], "stratum": "w"}
+                actions = [list(a) for a in acts]
+                res = execute(spec, actions, ctx)
+                ctx.count("histories_reroot_directed")
+                if res["key"]:
+                    report(ctx, spec, actions, res, cid)
+        finally:
+            ctx.end()
+    # ---- stratum x: del / reset_traits of observed traits (enumerated) ----------------
+    for xi, (text, tr, how, form, acts) in enumerate(del_cases(ctx.quick)):
+        if not ctx.mine(xi):
+            continue
+        cid = "x:%d" % xi
+        if not ctx.begin(cid, {"expr": text, "trait": tr, "how": how, "form": form}):
+            continue
+        try:
+            for alleq in (False, True):
+                spec = {"alleq": alleq, "npool": 5, "regs": [_rs(text, form)], "stratum": "x"}
+                actions = [list(a) for a in acts]
+                res = execute(spec, actions, ctx)
+                ctx.count("histories_del_directed")
+                if res["world"].delsig:
+                    ctx.count("histories_del_rehook_pattern")
+                if res["key"]:
+                    report(ctx, spec, actions, res, cid)
+        finally:
+            ctx.end()
     # ---- strata t / c: random histories ------------------------------------------
     for stratum, nh in (("t", ctx.scale(1600, 60000)), ("c", ctx.scale(600, 20000)),
-                        ("r", ctx.scale(400, 12000)), ("k", ctx.scale(400, 12000))):
+                        ("r", ctx.scale(400, 12000)), ("k", ctx.scale(400, 12000)),
+                        ("o", ctx.scale(240, 8000)), ("y", ctx.scale(200, 6000))):
         for h in range(nh):
             if not ctx.mine(h):
                 continue
@@ -3476,7 +4099,10 @@ def run(ctx):
                 res = execute(spec, actions, ctx, gen)
                 W = res["world"]
                 ctx.count({"t": "histories_acyclic", "c": "histories_cyclic",
-                           "r": "histories_dynamic", "k": "histories_nested"}[stratum])
+                           "r": "histories_dynamic", "k": "histories_nested",
+                           "o": "histories_reroot", "y": "histories_del"}[stratum])
+                if W.delsig:
+                    ctx.count("histories_del_rehook_pattern")
                 if W.multi:
                     ctx.count("multi_level_histories")
                     if stratum == "t":
